@@ -12,7 +12,7 @@ from sim.poolsim import run_pool
 EXPECT_DEAD = {
     "WP_thread": {"SpWaitPrev", "WaTimeout"}, "WP_mto": {"WkStart", "WkEnd", "WkRemove", "WaTimeout"},
     "WP_noprimary": {"SpWaitPrev", "PrWake", "PrRead", "PrStart", "PrEnd", "PrRemove", "PrPost", "WaTimeout"},
-    "WP_thread_big": {"SpWaitPrev"}, "WP_mto_big": {"WkStart", "WkEnd", "WkRemove"},
+    "WP_thread_big": {"SpWaitPrev", "WaTimeout"}, "WP_mto_big": {"WkStart", "WkEnd", "WkRemove"},
     "WP_noprimary_big": {"SpWaitPrev", "PrWake", "PrRead", "PrStart", "PrEnd", "PrRemove", "PrPost"},
 }
 PROG_OF_CFG = {
